@@ -125,8 +125,11 @@ def model_case(cfg, facts, items):
             dtbl[b"KILL"] = [QKILL]
             script.append([0, [1, it[1], frame_raw(b"KILL", 0)]])
         elif op == "nospawn":
+            # the client connects; the accept loop takes it and the thread / child process for it cannot be started: ESpawnFail
+            # (enabled for the kinds that start a worker per client; elsewhere the op is not generated)
             script.append([0, [0, it[1], AUTH_OK]])
             ckind[it[1]] = "raw"
+            script.append([0, [10]])
         elif op == "knock":
             script.append([0, [0, it[1], AUTH_OK]])
             ckind[it[1]] = "raw"
@@ -193,7 +196,7 @@ def model_case(cfg, facts, items):
             raise ValueError(op)
         script.append([1, list(hups)])
         snap.append(len(script) - 1)
-    case = [[kd] + list(facts[:7]) + [int(cfg["auth"]), int(cfg["cls"]), cfg["nw"], cfg["batch"], int(bool(cfg.get("wrap")) and bool(cfg["auth"]))],
+    case = [[kd] + list(facts[:7]) + [facts[10]] + [int(cfg["auth"]), int(cfg["cls"]), cfg["nw"], cfg["batch"], int(bool(cfg.get("wrap")) and bool(cfg["auth"]))],
             [[k, v] for k, v in dtbl.items()], [[k, v] for k, v in ztbl.items()], script]
     return case, snap, pre
 
@@ -2496,6 +2499,11 @@ def witnesses():
             base = {"kind": kind, "transport": transport, "auth": False, "cls": True, "nw": 2, "batch": 10}
             out.append((dict(base), [["race", 1], ["srvclose"]]))
             out.append((dict(base), [["connect", 1, "raw", 0], ["req", 1, QROOT, None, 0], ["race", 2], ["leave", 1, "fin"]]))
+    # no thread can be started for a client (model event ESpawnFail): nothing of it stays behind, close() afterwards ends the others
+    for transport in ("tcp", "unix"):
+        base = {"kind": "threaded", "transport": transport, "auth": False, "cls": True, "nw": 2, "batch": 10}
+        out.append((dict(base), [["connect", 1, "raw", 0], ["req", 1, QROOT, None, 0], ["nospawn", 2], ["req", 1, QBUMP, [1, 0], 0], ["srvclose"]]))
+        out.append((dict(base), [["nospawn", 1], ["connect", 2, "raw", 0], ["req", 2, QROOT, None, 0], ["leave", 2, "fin"], ["nospawn", 3], ["srvclose"], ["srvclose"]]))
     return out
 
 
@@ -2657,8 +2665,12 @@ def evaluate(ctx, label, batch, model, facts, farm, probe=None, nontrivial_fn=No
                 if not q:
                     fuel_out.append((cfg_of[i], j))
                 itj = job["items"][j]
-                if itj[0] in ("authlate", "nospawn", "classref", "knock"):
+                if itj[0] in ("authlate", "classref", "knock"):
                     starved = True       # (knock: whether accept() or the reset comes first is the kernel's business)
+                if itj[0] == "nospawn" and (not facts[10] or cfg_of[i]["kind"] != "threaded"):
+                    starved = True       # without the guard the server shuts itself down while its threads are still busy with the
+                                         # other clients: who wins is thread timing (the oracle reports the closed server); the op's
+                                         # fault injection (rpyc.utils.server.spawn) only exists for the threaded server
                 if itj[0] == "connect0" and not facts[9]:
                     starved = True       # the client on descriptor 0 is never served on this tree: the model serves every queued connection
                 if itj[0] == "hookhold" and not facts[7]:
